@@ -12,7 +12,7 @@ def case(label, first, parts_ops):
     cases.append((label, first, parts_ops))
 def stream(b): return "stream " + hx(b)
 def parts(*toks): return "parts " + " ".join(("m" if k == "m" else "j") + hx(b) for k, b in toks)
-std = ["cuts 1x%d n", "cuts 1x%d y", "cuts 2x%d n", "cuts 3x%d y", "cuts 7x%d n", "loop 5x%d n"]
+std = ["cuts 1x%d n", "cuts 1x%d y", "cuts 2x%d n io", "cuts 3x%d y io", "cuts 7x%d n", "loop 5x%d n", "loop 4x%d y io"]
 def stdops(n): return [o % (n + 1) for o in std]
 
 hb = msg(b"35=0" + SOH)
